@@ -172,7 +172,7 @@ Qed.
 
 Theorem resolve_sym_first fs cfg parts from_dir t :
   resolve_sym fs cfg parts from_dir = Some t ->
-  exists l1 b l2, bases cfg parts from_dir = l1 ++ b :: l2 /\ t = b ++ rel_file parts /\ lookup fs t <> None /\
+  exists l1 b l2, bases_sym cfg parts from_dir = l1 ++ b :: l2 /\ t = b ++ rel_file parts /\ lookup fs t <> None /\
                   forall b', In b' l1 -> lookup fs (b' ++ rel_file parts) = None.
 Proof.
   unfold resolve_sym. intros H. apply first_some_spec in H. destruct H as (l1 & b & l2 & E & Hf & Hn).
@@ -181,8 +181,22 @@ Proof.
 Qed.
 
 Theorem bases_order cfg parts from_dir :
-  bases cfg parts from_dir = (match parts with "bloch"%string :: _ => search cfg ++ [from_dir; cwd cfg] | _ => from_dir :: search cfg ++ [cwd cfg] end).
+  bases_sym cfg parts from_dir = (match parts with "bloch"%string :: _ :: _ => search cfg ++ [from_dir; cwd cfg] | _ => from_dir :: search cfg ++ [cwd cfg] end).
 Proof. reflexivity. Qed.
+
+Theorem resolve_wild_first fs cfg pkg from_dir :
+  resolve_wild fs cfg pkg from_dir <> [] ->
+  exists l1 b l2, (match pkg with "bloch"%string :: _ => search cfg ++ [from_dir; cwd cfg] | _ => from_dir :: search cfg ++ [cwd cfg] end) = l1 ++ b :: l2 /\
+                  resolve_wild fs cfg pkg from_dir = dir_modules fs (b ++ pkg) /\
+                  forall b', In b' l1 -> dir_modules fs (b' ++ pkg) = [].
+Proof.
+  unfold resolve_wild. intros H.
+  match type of H with context [match ?X with Some _ => _ | None => _ end] => destruct X as [ms|] eqn:E end; [|congruence].
+  apply first_some_spec in E. destruct E as (l1 & b & l2 & Eb & Hf & Hn).
+  exists l1, b, l2. split; [exact Eb|]. split.
+  - destruct (dir_modules fs (b ++ pkg)); [discriminate|]. congruence.
+  - intros b' Hb. specialize (Hn b' Hb). cbn in Hn. destruct (dir_modules fs (b' ++ pkg)); [reflexivity|discriminate].
+Qed.
 
 (* ---------- the traversal terminates within the fuel load provides ---------- *)
 Section Fuel.
